@@ -109,7 +109,7 @@ def mk_net(E, name, out, params=None):
 
 
 def is_leaf_net(o):
-    return isinstance(o, Obj) and isinstance(o.cls, str) and "$F" in o.fields
+    return isinstance(o, Obj) and isinstance(o.cls, str) and "$F" in o.fields and "$params" in o.fields
 
 
 def leaf_nets(o, seen=None):
@@ -133,6 +133,52 @@ def leaf_nets(o, seen=None):
         for v in o.values():
             out.extend(leaf_nets(v, seen))
     return out
+
+
+NNX_VAR = "stub.nnx.Variable"
+
+
+def mk_variable(E, name, kind="Variable"):
+    """a NON-Param nnx.Variable of a module (e.g. the action_scale / action_bias of the tanh policy heads, BatchNorm
+    statistics): part of nnx.state(m) / nnx.split(m), NOT selected by the nnx.Param filter, not trained by optimizers
+    constructed with wrt=nnx.Param.  Its value is an opaque PARAMS-sorted term."""
+    o = Obj(NNX_VAR, {"$kind": kind, "$value": E.st.fresh_sym(f"{name}.value", PARAMS), "$V": name}, name=name)
+    E.register(o)
+    return o
+
+
+def leaf_vars(o, seen=None):
+    """non-Param variables reachable from a module object (field order)"""
+    seen = set() if seen is None else seen
+    out = []
+    if id(o) in seen:
+        return out
+    seen.add(id(o))
+    if isinstance(o, Obj) and o.cls == NNX_VAR:
+        return [o]
+    if is_leaf_net(o):
+        return out
+    if isinstance(o, Obj):
+        for k, v in o.fields.items():
+            if k.startswith("$") and k != "$module":
+                continue
+            out.extend(leaf_vars(v, seen))
+    elif isinstance(o, (list, tuple)):
+        for v in o:
+            out.extend(leaf_vars(v, seen))
+    elif isinstance(o, dict):
+        for v in o.values():
+            out.extend(leaf_vars(v, seen))
+    return out
+
+
+def _only_params(filters):
+    """nnx filter semantics supported: no filter (every variable) or exactly nnx.Param"""
+    if not filters:
+        return False
+    if len(filters) == 1 and ((isinstance(filters[0], Opaque) and filters[0].tag == "nnx.Param") or (isinstance(filters[0], Builtin) and filters[0].name == "flax.nnx.Param")):
+        return True
+    raise Unsupported(f"nnx filter {filters!r}")
 
 
 def net_call(E, net, x):
@@ -359,17 +405,27 @@ polyak = C.uf("polyak", PARAMS, PARAMS, REAL, PARAMS)
 
 @LIB.fn("flax.nnx.state", doc="nnx.state(m): the parameter tree of m (read-only)")
 def nnx_state(E, m, *filters):
-    return StateVal([(n.fields["$F"], n.fields["$params"].z) for n in leaf_nets(m)])
+    ent = [(n.fields["$F"], n.fields["$params"].z) for n in leaf_nets(m)]
+    if not _only_params(filters):
+        ent += [(v.fields["$V"], v.fields["$value"].z) for v in leaf_vars(m)]
+    return StateVal(ent)
 
 
 @LIB.fn("flax.nnx.update", doc="nnx.update(m, state): writes state into m, nothing else")
 def nnx_update(E, m, state):
     nets = leaf_nets(m)
-    if not isinstance(state, StateVal) or len(state.entries) != len(nets):
+    vars_ = leaf_vars(m)
+    if not isinstance(state, StateVal) or len(state.entries) not in (len(nets), len(nets) + len(vars_)):
+        # (a state restricted to the Params updates only those; a full state updates every variable; anything else
+        # does not match the module's tree: flax raises "Incorrect number of leaves" / KeyError)
         raise PyRaise("ValueError", "nnx.update: state does not match the module structure")
     for n, (fname, p) in zip(nets, state.entries):
         E.log_write(n.name, "$params")
         n.fields["$params"] = Sym(p)
+    if len(state.entries) > len(nets):
+        for v, (fname, p) in zip(vars_, state.entries[len(nets):]):
+            E.log_write(v.name, "$value")
+            v.fields["$value"] = Sym(p)
     E.st.ghost.setdefault("module_writes", []).append(m)
 
 
@@ -394,12 +450,14 @@ def nnx_clone(E, m):
 
 @LIB.fn("flax.nnx.split", doc="nnx.split(m) -> (graphdef, state)")
 def nnx_split(E, m, *filters):
-    return (Opaque("graphdef", m), nnx_state(E, m))
+    return (Opaque("graphdef", m), nnx_state(E, m, *filters))
 
 
 @LIB.fn("flax.nnx.merge", doc="nnx.merge(graphdef, state): module with graphdef's structure and state's parameters")
 def nnx_merge(E, graphdef, state, *rest):
     m = nnx_clone(E, graphdef.payload)
+    if isinstance(state, StateVal) and len(state.entries) != len(leaf_nets(m)) + len(leaf_vars(m)):
+        raise PyRaise("ValueError", "nnx.merge: Incorrect number of leaves (the state does not cover every variable of the graphdef)")
     nnx_update(E, m, state)
     return m
 
